@@ -78,6 +78,39 @@ Fixpoint str_take (n : nat) (s : string) : string :=
   | S n' => match s with EmptyString => EmptyString | String c s' => String c (str_take n' s') end
   end.
 
+(** [s.split(sep, 1)], [s.rsplit(sep, 1)], [s.partition(sep)], [s.rpartition(sep)]: cut at the
+    first / last occurrence of a non-empty separator.  [*_go] return [Some (head, tail)] if the
+    separator occurs. *)
+Fixpoint py_split1_go (sep s : string) : option (string * string) :=
+  match s with
+  | EmptyString => None
+  | String c r =>
+      if String.prefix sep s then Some (EmptyString, str_drop (String.length sep) s)
+      else match py_split1_go sep r with
+           | Some (h, t) => Some (String c h, t)
+           | None => None
+           end
+  end.
+
+Fixpoint py_rsplit1_go (sep s : string) : option (string * string) :=
+  match s with
+  | EmptyString => None
+  | String c r =>
+      match py_rsplit1_go sep r with
+      | Some (h, t) => Some (String c h, t)
+      | None => if String.prefix sep s then Some (EmptyString, str_drop (String.length sep) s) else None
+      end
+  end.
+
+Definition py_split1 (s sep : string) : list string :=
+  match py_split1_go sep s with Some (h, t) => [h; t] | None => [s] end.
+Definition py_rsplit1 (s sep : string) : list string :=
+  match py_rsplit1_go sep s with Some (h, t) => [h; t] | None => [s] end.
+Definition py_partition (s sep : string) : string * (string * string) :=
+  match py_split1_go sep s with Some (h, t) => (h, (sep, t)) | None => (s, (EmptyString, EmptyString)) end.
+Definition py_rpartition (s sep : string) : string * (string * string) :=
+  match py_rsplit1_go sep s with Some (h, t) => (h, (sep, t)) | None => (EmptyString, (EmptyString, s)) end.
+
 Definition py_clamp (len : nat) (i : Z) : nat :=
   if (i <? 0)%Z then Z.to_nat (Z.max 0 (Z.of_nat len + i)) else Nat.min len (Z.to_nat i).
 
@@ -127,6 +160,8 @@ Fixpoint py_list_eqb {X : Type} (eq : X -> X -> bool) (l1 l2 : list X) : bool :=
 
 Definition py_pair_eqb {X Y : Type} (eqx : X -> X -> bool) (eqy : Y -> Y -> bool)
   (p q : X * Y) : bool := eqx (fst p) (fst q) && eqy (snd p) (snd q).
+
+Definition py_is_nil {X : Type} (l : list X) : bool := match l with [] => true | _ :: _ => false end.
 
 Definition py_len_str (s : string) : Z := Z.of_nat (String.length s).
 Definition py_len {X : Type} (l : list X) : Z := Z.of_nat (List.length l).
